@@ -119,7 +119,14 @@ func (x *X) Passed(text string) bool { return x.St.Hist[text] }
 func (x *X) Pos() string { return x.E.P.InstrPos(x.Ins) }
 
 // Top reports whether the current frame is the function being analysed.
-func (x *X) Top() bool { return x.Fr.Parent == nil }
+func (x *X) Top() bool {
+	for f := x.Fr; f.Parent != nil; f = f.Parent {
+		if !f.Transparent {
+			return false
+		}
+	}
+	return true
+}
 
 // StaticCallee returns the static callee of the current call instruction.
 func StaticCallee(ins ssa.Instruction) *ssa.Function {
@@ -209,15 +216,16 @@ type Explorer struct {
 	MaxDepth int
 	MaxSteps int
 	// results
-	Steps      int
-	Paths      int
-	Imprecise  string // non-empty when a cap was hit
-	AutoTrack  bool
-	NoHist     bool // do not record branch history (rules that only need current facts, in loops)
-	NoForkBool bool // do not materialise non-constant boolean results of inlined callees
-	memo       map[string][]exitRec
-	condCount  map[string]map[string]int
-	infos      map[string]*fnInfo
+	Steps        int
+	Paths        int
+	Imprecise    string // non-empty when a cap was hit
+	AutoTrack    bool
+	NoHist       bool // do not record branch history (rules that only need current facts, in loops)
+	NoAutoInline bool // do not look through functions unknown to the baseline
+	NoForkBool   bool // do not materialise non-constant boolean results of inlined callees
+	memo         map[string][]exitRec
+	condCount    map[string]map[string]int
+	infos        map[string]*fnInfo
 }
 
 type exitRec struct {
@@ -858,13 +866,16 @@ func (e *Explorer) call(fr *Frame, s *State, site ssa.CallInstruction, deferred 
 			return nil
 		}
 	}
-	if callee != nil && callee.Blocks != nil && e.H.Inline != nil && fr.Depth < e.MaxDepth && !inStack(fr, callee) && e.H.Inline(x, callee) {
+	// helpers that did not exist when the rules were written are always
+	// explored inline, as part of their caller
+	auto := callee != nil && callee.Blocks != nil && !e.NoAutoInline && fr.Depth < e.MaxDepth && !inStack(fr, callee) && e.P.IsNewFunc(callee)
+	if auto || (callee != nil && callee.Blocks != nil && e.H.Inline != nil && fr.Depth < e.MaxDepth && !inStack(fr, callee) && e.H.Inline(x, callee)) {
 		var args []Expr
 		for _, a := range com.Args {
 			args = append(args, canon(fr, s.Env, a, 0))
 		}
 		id := fr.ID + "/" + siteName(site)
-		nf := &Frame{Fn: callee, ID: id, Args: args, Free: free, Parent: fr, Site: site, Depth: fr.Depth + 1}
+		nf := &Frame{Fn: callee, ID: id, Args: args, Free: free, Parent: fr, Site: site, Depth: fr.Depth + 1, Transparent: auto}
 		// purge stale facts/bindings of an earlier activation of this site
 		s.Facts.killMention("@" + id + ":")
 		s.Facts.killMention("@" + id + "/")
